@@ -42,10 +42,13 @@ from harness.universe import export_plan, table_rows, kf_tfs_partial_requirement
 from harness.orch import GateListener, cq_plan, install, uuid_to_sid, REC, run_observed
 from harness.c07_lib import (Uni7, Renamer, dump, diff_paths, cq_api, cq_cols, cq_opts, cq_link, cq_flt, cq_fobj, cq_oobj,
                              cq_coll, CFW_IDS, DT_IDS, JT_IDS)
+from harness import mp_obs
 
 LEVEL = "proof"
 logging.disable(logging.CRITICAL)
-REQ_A = ["MV.Model.Orch", "MV.Model.Session"]
+REQ_A = ["MV.Model.Modes", "MV.Model.Orch", "MV.Model.Session"]
+MODES3 = ["SYNC", "THREADING", "MULTIPROCESSING"]
+CQ_MODE = {"SYNC": "MSync", "THREADING": "MThreading", "MULTIPROCESSING": "MMultiprocessing"}
 REQ_B = ["MV.Model.Args"]
 
 
@@ -56,17 +59,49 @@ def canon_tables(res: Any) -> List[str]:
 
 def mode_of(name: str) -> Any:
     from mloda.user import ParallelizationMode
-    return {"SYNC": {ParallelizationMode.SYNC}, "THREADING": {ParallelizationMode.THREADING}}[name]
+    return {"SYNC": {ParallelizationMode.SYNC}, "THREADING": {ParallelizationMode.THREADING},
+            "MULTIPROCESSING": {ParallelizationMode.MULTIPROCESSING}}[name]
+
+
+KF_MP_API = "C07-mp-run-with-api-data-never-returns"
+HANG_S = 60.0        # watchdog of a MULTIPROCESSING operation
+HANG_S_KF = 8.0      # the same inside the known-defect domain kf_mp_api (such a run takes < 1 s when it returns at all)
+
+
+def kf_mp_api(plan: Dict[str, Any], case: Dict[str, Any]) -> bool:
+    """Known-defect domain (decided on the request): a MULTIPROCESSING run of a session one of whose feature-group steps is
+    served through api_data.  The step carries an instance of a class created at prepare time (DynamicApiCls_<key>), the
+    command queue's feeder thread cannot pickle it, the step never reaches its worker process and the run spins forever."""
+    api_groups = {g["name"] for g in case["spec"]["groups"] if g["kind"] == "api"}
+    return any(s["kind"] == "FG" and s["group"] in api_groups for s in plan["steps"])
+
+
+_SINK: List[Any] = []
+
+
+def sink7() -> Any:
+    """File through which worker PROCESSES of a MULTIPROCESSING run report (step begin/end/raise, api data received)."""
+    import os
+    if not _SINK:
+        _SINK.append(mp_obs.Sink(str(vlib.BUILD / "C07" / "mp" / f"child_{os.getpid()}.jsonl")))
+    return _SINK[0]
+
+
+def mp_kw(mode: str) -> Dict[str, Any]:
+    if mode != "MULTIPROCESSING":
+        return {}
+    from harness.orch import flight_server
+    return {"flight_server": flight_server()}
 
 
 # ============================================================================================================
 # Part A — histories on one prepared session
 # ============================================================================================================
 
-def gen_session_case(rng: random.Random) -> Dict[str, Any]:
+def gen_session_case(rng: random.Random, api_prob: float = 0.75) -> Dict[str, Any]:
     spec = daggen.gen_two_roots_inner(rng) if rng.random() < 0.2 else daggen.gen_single_root(rng, n_rows=3)
     spec = json.loads(json.dumps(spec))
-    api = rng.random() < 0.75
+    api = rng.random() < api_prob
     if api:
         g = spec["groups"][0]
         g.update(kind="api", key="K0", features={c: {} for c in g["cols"]})
@@ -80,15 +115,22 @@ def gen_session_case(rng: random.Random) -> Dict[str, Any]:
     return {"spec": spec, "api": api, "variants": variants, "seed": rng.randrange(1 << 30)}
 
 
-def gen_ops(rng: random.Random, case: Dict[str, Any], plan: Dict[str, Any], threading_ok: bool, n_max: int = 8) -> List[Dict[str, Any]]:
+def gen_ops(rng: random.Random, case: Dict[str, Any], plan: Dict[str, Any], threading_ok: bool, n_max: int = 8,
+            mix: Optional[List[str]] = None) -> List[Dict[str, Any]]:
+    """mix = None: the SYNC / THREADING histories of family A.  mix = list of admissible modes: every operation draws its
+    mode from it (family A-modes: SYNC, THREADING and MULTIPROCESSING operations interleaved on ONE session)."""
     fg = [s for s in plan["steps"] if s["kind"] == "FG"]
     n_req = sum(1 for s in fg if s["requested"])
     ops = []
-    for _ in range(rng.randrange(2, n_max + 1)):
+    for _ in range(rng.randrange(3 if mix else 2, n_max + 1)):
         r = rng.random()
         kind = "run" if r < 0.35 else "stream" if r < 0.55 else "fail" if r < 0.75 else "abandon" if r < 0.92 else "get"
+        if mix:
+            mode = rng.choice(mix)
+        else:
+            mode = "THREADING" if (threading_ok and rng.random() < 0.4) else "SYNC"
         op: Dict[str, Any] = {"kind": kind, "api": rng.randrange(len(case["variants"])),
-                              "mode": "THREADING" if (threading_ok and rng.random() < 0.4) else "SYNC", "fail": [], "j": 0}
+                              "mode": mode, "fail": [], "j": 0}
         if kind == "fail":
             s = rng.choice(fg)
             op["fail"] = [[s["group"], rng.choice(s["names"])]]
@@ -99,6 +141,10 @@ def gen_ops(rng: random.Random, case: Dict[str, Any], plan: Dict[str, Any], thre
                 s = rng.choice(fg)
                 op["fail"] = [[s["group"], rng.choice(s["names"])]]
         ops.append(op)
+    if mix and "MULTIPROCESSING" in mix and not any(o["mode"] == "MULTIPROCESSING" and o["kind"] != "get" for o in ops):
+        cand = [o for o in ops if o["kind"] != "get"]
+        if cand:
+            rng.choice(cand)["mode"] = "MULTIPROCESSING"
     return ops
 
 
@@ -134,9 +180,22 @@ def run_session_case(case: Dict[str, Any], rep_ops: Optional[List[Dict[str, Any]
     in_kf = bool(kf_tfs_partial_requirement(plan) or kf_framework_roundtrip(plan) or kf_tfs_missing(plan))
     rec["in_kf"] = in_kf
     threading_ok = (not in_kf) and case.get("threading_ok", True)
-    ops = rep_ops if rep_ops is not None else case.get("ops") or gen_ops(rng, case, plan, threading_ok)
+    mix = None
+    if case.get("mix"):
+        # family A-modes: THREADING only on plans without unordered conflicting steps, MULTIPROCESSING only if moreover no
+        # two unordered steps touch each other's objects and no transform step starts from a non-Arrow framework
+        # (known findings of C01 / C06); decided by probe_conflicts in Coq
+        # and only on sessions without api_data-backed roots: with api_data a MULTIPROCESSING run never returns (known
+        # finding KF_MP_API; exercised by the explicit witness histories of mp_api_witnesses())
+        mp_ok = threading_ok and case.get("mp_ok", False) and not case["api"] and not any(
+            s["kind"] == "TFS" and s["from_cfw"] != "PyArrowTable" for s in plan["steps"])
+        mix = ["SYNC"] + (["THREADING"] if threading_ok else []) + (["MULTIPROCESSING", "MULTIPROCESSING"] if mp_ok else [])
+        rec["mix"] = mix
+        mp_obs.install_step_events()
+    ops = rep_ops if rep_ops is not None else case.get("ops") or gen_ops(rng, case, plan, threading_ok, n_max=6 if mix else 8, mix=mix)
     rec["ops"] = ops
     u2s = uuid_to_sid(sess)
+    s2s = {str(u): i for u, i in u2s.items()}
     variants = [copy.deepcopy(v) for v in case["variants"]]
     var_snap = copy.deepcopy(variants)
     fresh_memo: Dict[str, Any] = {}
@@ -147,11 +206,17 @@ def run_session_case(case: Dict[str, Any], rep_ops: Optional[List[Dict[str, Any]
         if key not in fresh_memo:
             u2 = Uni7(spec, GateListener())
             u2.fail = {tuple(x) for x in fail}
-            try:
-                kw = {"api_data": copy.deepcopy(eff)} if eff is not None else {}
-                fresh_memo[key] = ("ok", canon_tables(u2.run_all(mode_of(mode), **kw)))
-            except Exception as e:  # noqa: BLE001
-                fresh_memo[key] = ("raised", "VERIF-FAULT" in str(e))
+            kw = {"api_data": copy.deepcopy(eff)} if eff is not None else {}
+            kw.update(mp_kw(mode))
+            mp_obs.CUR["sink"] = None
+            st, val = mp_obs.watchdog(lambda: canon_tables(u2.run_all(mode_of(mode), **kw)), 60.0)
+            if st == "ok":
+                fresh_memo[key] = ("ok", val)
+            elif st == "raised":
+                fresh_memo[key] = ("raised", "VERIF-FAULT" in str(val))
+            else:
+                mp_obs.kill_stray_children()
+                fresh_memo[key] = ("hang", None)
             u2.dispose()
         return fresh_memo[key]
 
@@ -164,56 +229,111 @@ def run_session_case(case: Dict[str, Any], rep_ops: Optional[List[Dict[str, Any]
         REC.reset()
         uni.fail = {tuple(x) for x in op["fail"]}
         kw: Dict[str, Any] = {"parallelization_modes": mode_of(op["mode"])}
+        kw.update(mp_kw(op["mode"]))
         if given is not None:
             kw["api_data"] = given
         o: Dict[str, Any] = {"status": None, "items": [], "tables": None}
         kind = op["kind"]
         streamed = kind in ("stream", "abandon") or (kind == "fail" and op.get("stream"))
+        sink = None
+        if op["mode"] == "MULTIPROCESSING" and kind != "get":
+            sink = sink7()
+            sink.reset()
+        mp_obs.CUR["sink"] = sink
+
+        def body(o: Dict[str, Any] = o, kind: str = kind, kw: Dict[str, Any] = kw, streamed: bool = streamed, op: Dict[str, Any] = op) -> None:
+            try:
+                if kind == "get":
+                    res = sess.get_result()
+                    o["status"], o["tables"] = "ok", canon_tables(res)
+                    o["items"] = [u2s.get(u, -1) for u in sess.runner.data_lifecycle_manager.result_data_collection]  # type: ignore[union-attr]
+                elif kind == "abandon":
+                    g = sess.stream_run(**kw)
+                    got = []
+                    o["status"] = "abandoned"
+                    for _ in range(op["j"]):
+                        try:
+                            got.append(next(g))
+                        except StopIteration:
+                            o["status"] = "ok"
+                            break
+                    g.close()
+                    del g
+                    gc.collect()
+                    o["tables"] = canon_tables(got)
+                    o["items"] = [u2s.get(u, -1) for u in REC.yields]
+                elif streamed:
+                    got = list(sess.stream_run(**kw))
+                    o["status"], o["tables"] = "ok", canon_tables(got)
+                    o["items"] = [u2s.get(u, -1) for u in REC.yields]
+                else:
+                    res = sess.run(**kw)
+                    o["status"], o["tables"] = "ok", canon_tables(res)
+                    o["items"] = [u2s.get(u, -1) for u in sess.runner.data_lifecycle_manager.result_data_collection]  # type: ignore[union-attr]
+            except Exception as e:  # noqa: BLE001
+                msg = str(e)
+                if kind == "get":
+                    o["status"] = "norunner" if "run any run function beforehand" in msg else "raised"
+                else:
+                    o["status"] = "raised"
+                o["fault"] = "VERIF-FAULT" in msg
+                o["msg"] = msg[-160:]
+                if streamed:
+                    o["items"] = [u2s.get(u, -1) for u in REC.yields]
+        in_api_mp_domain = op["mode"] == "MULTIPROCESSING" and kind != "get" and kf_mp_api(rec["plan"], case)
+        import io
+        import sys
+        err_buf = io.StringIO()
+        old_err = sys.stderr
+        if in_api_mp_domain:
+            sys.stderr = err_buf         # the queue feeder thread reports its PicklingError with traceback.print_exc() only
         try:
-            if kind == "get":
-                res = sess.get_result()
-                o["status"], o["tables"] = "ok", canon_tables(res)
-                o["items"] = [u2s.get(u, -1) for u in sess.runner.data_lifecycle_manager.result_data_collection]  # type: ignore[union-attr]
-            elif kind == "abandon":
-                g = sess.stream_run(**kw)
-                got = []
-                o["status"] = "abandoned"
-                for _ in range(op["j"]):
-                    try:
-                        got.append(next(g))
-                    except StopIteration:
-                        o["status"] = "ok"
-                        break
-                g.close()
-                del g
-                gc.collect()
-                o["tables"] = canon_tables(got)
-                o["items"] = [u2s.get(u, -1) for u in REC.yields]
-            elif streamed:
-                got = list(sess.stream_run(**kw))
-                o["status"], o["tables"] = "ok", canon_tables(got)
-                o["items"] = [u2s.get(u, -1) for u in REC.yields]
+            if op["mode"] == "MULTIPROCESSING":
+                st, _v = mp_obs.watchdog(body, HANG_S_KF if in_api_mp_domain else HANG_S)
+                if st != "ok" and not in_api_mp_domain:
+                    # an unreproducible stall: abandon the run (its processes are killed), repeat the operation once on the
+                    # same session -- itself a history the property speaks about -- and count it
+                    mp_obs.kill_stray_children()
+                    rec["timeouts_retried"] = rec.get("timeouts_retried", 0) + 1
+                    o = {"status": None, "items": [], "tables": None}
+                    REC.reset()
+                    sink.reset() if sink is not None else None
+                    uni.api_seen.clear()
+                    st, _v = mp_obs.watchdog(lambda: body(o=o), HANG_S)
+                if st != "ok":
+                    o = dict(o, status="hang")        # the abandoned thread keeps its own dict
             else:
-                res = sess.run(**kw)
-                o["status"], o["tables"] = "ok", canon_tables(res)
-                o["items"] = [u2s.get(u, -1) for u in sess.runner.data_lifecycle_manager.result_data_collection]  # type: ignore[union-attr]
-        except Exception as e:  # noqa: BLE001
-            msg = str(e)
-            if kind == "get":
-                o["status"] = "norunner" if "run any run function beforehand" in msg else "raised"
-            else:
-                o["status"] = "raised"
-            o["fault"] = "VERIF-FAULT" in msg
-            o["msg"] = msg[-160:]
-            if streamed:
-                o["items"] = [u2s.get(u, -1) for u in REC.yields]
+                body()
         finally:
+            sys.stderr = old_err
             uni.fail = set()
-        o["raised_steps"] = sorted({u2s.get(u, -1) for k, u in REC.events if k == "raise"} - {-1})
+            mp_obs.CUR["sink"] = None
+        if in_api_mp_domain:
+            o["feeder_thread_pickling_error"] = "PicklingError" in err_buf.getvalue()
+        child_lines = sink.read() if sink is not None else []
+        if o["status"] == "hang":
+            mp_obs.kill_stray_children()       # also ends the abandoned thread: its manager connection breaks
+            rec["obs"].append(dict(o, raised_steps=[], runner_changed=sess.runner is not prev_runner, flags=flags_of(sess),
+                                   api_kept=sess.api_data is d0, seen=None, has_seen=False))
+            if in_api_mp_domain:
+                rec.setdefault("kf", []).append((KF_MP_API, i))
+                if plan_snapshot(sess) != before_plan:
+                    rec["problems"].append(f"op {i} ({kind}, hung MULTIPROCESSING run): the session's own execution plan object changed")
+                continue
+            rec["problems"].append(f"op {i} ({kind}, {op['mode']}): did not return within {HANG_S} s")
+            rec["ops"] = ops[:i + 1]
+            break
+        o["raised_steps"] = sorted(({u2s.get(u, -1) for k, u in REC.events if k == "raise"}
+                                    | {s2s.get(l["uuid"], -1) for l in child_lines if l["ev"] == "raise"}) - {-1})
+        o["child_steps"] = sorted({s2s.get(l["uuid"], -1) for l in child_lines if l["ev"] == "begin" and l.get("child")})
+        o["worker_processes"] = len({l["pid"] for l in child_lines if l.get("child")})
         o["runner_changed"] = sess.runner is not prev_runner
         o["flags"] = flags_of(sess)
         o["api_kept"] = sess.api_data is d0
         seen = uni.api_seen[-1] if uni.api_seen else None
+        child_seen = [l["data"] for l in child_lines if l["ev"] == "api_seen"]
+        if seen is None and child_seen:
+            seen = child_seen[-1]          # MULTIPROCESSING: the api-backed root ran in a worker process
         o["seen"] = {"K0": {k: list(v) for k, v in seen.items()}} if seen is not None else None
         o["has_seen"] = seen is not None
         rec["obs"].append(o)
@@ -260,6 +380,11 @@ def run_session_case(case: Dict[str, Any], rep_ops: Optional[List[Dict[str, Any]
     left = [t.name for t in set(threading.enumerate()) - base_threads]
     if left:
         rec["problems"].append(f"threads left behind after the history: {left[:3]}")
+    if any(op["mode"] == "MULTIPROCESSING" for op in rec["ops"]):
+        procs = mp_obs.stray_children()
+        if procs:
+            rec["problems"].append(f"worker / manager processes left behind after the history: pids {procs[:4]}")
+            mp_obs.kill_stray_children()
     uni.dispose()
     return rec
 
@@ -273,7 +398,7 @@ def cq_obs(rec: Dict[str, Any], op: Dict[str, Any], o: Dict[str, Any]) -> str:
     k = "KGet" if kind == "get" else f"(KAbandon {cq_nat(op['j'])})" if kind == "abandon" else "KStream" if streamed else "KRun"
     given = rec["case"]["variants"][op["api"]]
     seen = f"(Some {cq_api(o['seen'])})" if o["has_seen"] else "None"
-    return (f"{{| ob_kind := {k}; ob_api := {cq_api(given)}; ob_inline := {cq_bool(op['mode'] == 'SYNC')}; "
+    return (f"{{| ob_kind := {k}; ob_api := {cq_api(given)}; ob_inline := inline_of {CQ_MODE[op['mode']]}; "
             f"ob_fails := {cq_list(cq_nat(x) for x in o.get('raised_steps', []))}; ob_status := {RSTAT[o['status']]}; "
             f"ob_items := {cq_list(cq_nat(x) for x in o['items'] if x >= 0)}; ob_runner_changed := {cq_bool(o['runner_changed'])}; "
             f"ob_flags := {cq_list(cq_nat(x) for x in o['flags'])}; ob_api_kept := {cq_bool(o['api_kept'])}; ob_seen := {seen} |}}")
@@ -288,7 +413,7 @@ def cq_session_case(rec: Dict[str, Any]) -> str:
             f"{cq_list(cq_obs(rec, op, o) for op, o in zip(rec['ops'], rec['obs']))})")
 
 
-def probe_conflicts(cases: List[Dict[str, Any]]) -> None:
+def probe_conflicts(cases: List[Dict[str, Any]], with_mp: bool = False) -> None:
     """THREADING is used only on requests whose plan has no two unordered steps working on one compute-framework object
     (known findings of C01: such plans are schedule dependent).  Decided by conflict_free (Model/OrchCheck.v) on the
     plan and object footprint of a probe session."""
@@ -308,17 +433,66 @@ def probe_conflicts(cases: List[Dict[str, Any]]) -> None:
         uni.dispose()
     bad = set(vlib.run_cases("C07", "cf", ["MV.Model.Orch", "MV.Model.OrchCheck"], "chk_cf", terms, extra_defs=C01_EXTRA,
                              case_type="plan * foot", shard=80)[0])
+    badx: set = set()
+    if with_mp:
+        badx = set(vlib.run_cases("C07", "cfx", ["MV.Model.Orch", "MV.Model.OrchCheck"], "chk_cfx", terms, case_type="plan * foot", shard=80,
+                                  extra_defs=C01_EXTRA + "\nDefinition chk_cfx (c : plan * foot) := conflict_free_x (fst c) (snd c).\n")[0])
     for k, i in enumerate(idx):
         cases[i]["threading_ok"] = k not in bad
+        cases[i]["mp_ok"] = with_mp and k not in bad and k not in badx
 
 
-def part_a(rep: vlib.Reporter, tier: str, rng: random.Random) -> bool:
-    n = 1000 if tier == "thorough" else 60
+def mp_api_witnesses(big: bool) -> List[Dict[str, Any]]:
+    """Explicit histories on an api_data-backed session that contain MULTIPROCESSING operations (known-defect domain kf_mp_api:
+    such an operation never returns; accepted there: no return within HANG_S_KF, or the fresh run_all's result).  What C07
+    asks of them is still checked: the operations AFTER the hung one return what a fresh run_all returns, the session's plan
+    and the caller's api_data dictionaries are untouched."""
+    def case(cols: Dict[str, List[int]], ops: List[Dict[str, Any]], seed: int) -> Dict[str, Any]:
+        spec = {"groups": [{"name": "A0", "kind": "api", "cfw": "PyArrowTable", "key": "K0", "cols": cols, "features": {c: {} for c in cols}},
+                           {"name": "D0", "kind": "derived", "cfw": "PyArrowTable",
+                            "features": {"f": {"inputs": ["a", "b"], "c0": 1, "coefs": [1, 2]}}}],
+                "request": ["f", "a"]}
+        variants: List[Any] = [None, {"K0": {"a": [5, 6], "b": [1, 1], "k": [1, 2]}}, {"K0": {"a": [7], "b": [2], "k": [3]}}]
+        return {"spec": spec, "api": True, "variants": variants, "seed": seed, "mix": True, "threading_ok": True, "mp_ok": False,
+                "ops": ops, "witness": True}
+
+    def op(kind: str, mode: str, api: int, **kw: Any) -> Dict[str, Any]:
+        return dict({"kind": kind, "api": api, "mode": mode, "fail": [], "j": 0}, **kw)
+    cols = {"a": [1, 2, 3], "b": [10, 20, 30], "k": [1, 2, 3]}
+    out = [case(cols, [op("run", "SYNC", 1), op("run", "MULTIPROCESSING", 2), op("stream", "THREADING", 0), op("run", "SYNC", 2),
+                       op("get", "SYNC", 0)], 1)]
+    if big:
+        out.append(case(cols, [op("stream", "MULTIPROCESSING", 1), op("run", "THREADING", 1), op("abandon", "MULTIPROCESSING", 2, j=1),
+                               op("run", "SYNC", 0)], 2))
+        out.append(case(cols, [op("run", "THREADING", 0), op("fail", "MULTIPROCESSING", 1, fail=[["D0", "f"]]),
+                               op("fail", "SYNC", 1, fail=[["D0", "f"]]), op("run", "THREADING", 2)], 3))
+    return out
+
+
+def part_a(rep: vlib.Reporter, tier: str, rng: random.Random, modes: bool = False) -> bool:
+    """modes = False: family A (SYNC / THREADING histories).  modes = True: family A-modes -- histories whose operations run
+    in SYNC, THREADING and MULTIPROCESSING interleaved on ONE session (run SYNC, failing run in MULTIPROCESSING, THREADING
+    stream abandoned after j items, MULTIPROCESSING run with other api data, ...), every result compared with a FRESH run_all in
+    the operation's own mode, the observed history replayed through the same checker chk_hist (inline_of mode)."""
+    big = tier == "thorough"
+    fam = "A-modes" if modes else "A"
+    n = (150 if big else 10) if modes else (1000 if big else 60)
     recs: List[Dict[str, Any]] = []
     dist: Dict[str, Any] = {"histories": 0, "prepare_rejected": 0, "ops": {}, "modes": {}, "status": {}, "api_backed": 0,
                             "in_planner_kf_domain": 0, "len_hist": {}}
-    cases = [gen_session_case(rng) for _ in range(n)]
-    probe_conflicts(cases)
+    t0 = time.time()
+    if modes:
+        cand = [gen_session_case(rng, api_prob=0.3) for _ in range(3 * n)]
+        probe_conflicts(cand, with_mp=True)
+        dist["candidates"] = len(cand)
+        dist["multiprocessing_allowed_candidates"] = sum(1 for c in cand if c.get("mp_ok") and not c["api"])
+        cases = ([c for c in cand if c.get("mp_ok") and not c["api"]] + [c for c in cand if not (c.get("mp_ok") and not c["api"])])[:n]
+        for c in cases:
+            c["mix"] = True
+        cases = mp_api_witnesses(big) + cases
+    else:
+        cases = [gen_session_case(rng) for _ in range(n)]
+        probe_conflicts(cases)
     dist["threading_allowed"] = sum(1 for c in cases if c.get("threading_ok"))
     for case in cases:
         rec = run_session_case(case)
@@ -327,6 +501,9 @@ def part_a(rep: vlib.Reporter, tier: str, rng: random.Random) -> bool:
             continue
         recs.append(rec)
     found = False
+    per_mode: Dict[str, Dict[str, Any]] = {m: {"ops": 0, "by_kind": {}, "status": {}, "worker_processes_max": 0,
+                                               "steps_executed_in_worker_processes": 0, "failing_step_reported_from_child": 0,
+                                               "api_data_seen_in_child": 0, "preceded_by_other_mode": 0} for m in MODES3}
     for rec in recs:
         dist["histories"] += 1
         dist["api_backed"] += int(rec["case"]["api"])
@@ -334,36 +511,69 @@ def part_a(rep: vlib.Reporter, tier: str, rng: random.Random) -> bool:
         L = len(rec["ops"])
         dist["len_hist"][L] = dist["len_hist"].get(L, 0) + 1
         kinds = set()
+        seen_modes: set = set()
         for op, o in zip(rec["ops"], rec["obs"]):
             dist["ops"][op["kind"]] = dist["ops"].get(op["kind"], 0) + 1
             dist["modes"][op["mode"]] = dist["modes"].get(op["mode"], 0) + 1
             dist["status"][o["status"]] = dist["status"].get(o["status"], 0) + 1
             kinds.add(op["kind"])
             rep.count(2 if op["kind"] != "get" else 1)
-        if len(kinds) >= 3 and any(o["status"] == "raised" for o in rec["obs"]) and any(o["status"] == "ok" for o in rec["obs"]):
+            if op["kind"] != "get":
+                pm = per_mode[op["mode"]]
+                pm["ops"] += 1
+                pm["by_kind"][op["kind"]] = pm["by_kind"].get(op["kind"], 0) + 1
+                pm["status"][o["status"]] = pm["status"].get(o["status"], 0) + 1
+                pm["worker_processes_max"] = max(pm["worker_processes_max"], o.get("worker_processes", 0))
+                pm["steps_executed_in_worker_processes"] += len(o.get("child_steps", []))
+                pm["failing_step_reported_from_child"] += int(op["mode"] == "MULTIPROCESSING" and bool(o.get("raised_steps")))
+                pm["api_data_seen_in_child"] += int(op["mode"] == "MULTIPROCESSING" and bool(o.get("has_seen")))
+                pm["preceded_by_other_mode"] += int(bool(seen_modes - {op["mode"]}))
+                seen_modes.add(op["mode"])
+        if modes:
+            if len({op["mode"] for op in rec["ops"] if op["kind"] != "get"}) >= 2 and len(kinds) >= 2:
+                rep.nontrivial((fam, rec["case"]["spec"], rec["ops"]))
+        elif len(kinds) >= 3 and any(o["status"] == "raised" for o in rec["obs"]) and any(o["status"] == "ok" for o in rec["obs"]):
             rep.nontrivial(("A", rec["case"]["spec"], rec["ops"]))
         for p in rec["problems"]:
             found = True
-            rep.finding("session:" + p[:60] + ":" + json.dumps(rec["case"]["spec"], sort_keys=True)[:200], "session history: " + p,
+            rep.finding("session:" + p[:60] + ":" + json.dumps(rec["case"]["spec"], sort_keys=True)[:200], f"session history ({fam}): " + p,
                         {"kind": "session", "case": rec["case"], "ops": rec["ops"], "problem": p})
-    modelled = [r for r in recs if not any(o.get("unmodelled_raise") for o in r["obs"])]
+        for key, i in rec.get("kf", []):
+            dist["ops_in_known_defect_domain_not_returning"] = dist.get("ops_in_known_defect_domain_not_returning", 0) + 1
+            rep.finding(key, f"op {i} of {rec['ops']} did not return", {"kind": "session", "case": rec["case"], "ops": rec["ops"]})
+    modelled = [r for r in recs if not any(o.get("unmodelled_raise") for o in r["obs"]) and not any(o["status"] == "hang" for o in r["obs"])]
     dist["histories_replayed_in_model"] = len(modelled)
     terms = [cq_session_case(r) for r in modelled]
-    bad, info = vlib.run_cases("C07", "hist", REQ_A, "chk_hist", terms,
-                               case_type="plan * option api_data * list obs", shard=80)
+    bad, info = vlib.run_cases("C07", "hist_modes" if modes else "hist", REQ_A, "chk_hist", terms,
+                               case_type="plan * option api_data * list obs", shard=80) if terms else ([], {})
     for i in bad[:5]:
         r = modelled[i]
         found = True
         rep.finding("session-model:" + json.dumps(r["case"]["spec"], sort_keys=True)[:200],
-                    "observed session history is not the model's (Model/Session.exec): " +
+                    f"observed session history ({fam}) is not the model's (Model/Session.exec): " +
                     json.dumps([{k: o[k] for k in ('status', 'items', 'runner_changed', 'flags', 'api_kept')} for o in r["obs"]])[:400],
                     {"kind": "session", "case": r["case"], "ops": r["ops"], "obs": r["obs"]})
-    rep.add("session_histories", dist)
-    rep.add("session_model", {**info, "disagreements": len(bad)})
-    rep.add("traces_validated_against_impl", len(recs))
+    if modes:
+        dist["per_mode"] = per_mode
+        dist["histories_with_two_or_more_modes"] = sum(1 for r in recs if len({op["mode"] for op in r["ops"] if op["kind"] != "get"}) >= 2)
+        dist["histories_with_multiprocessing"] = sum(1 for r in recs if any(op["mode"] == "MULTIPROCESSING" for op in r["ops"]))
+        dist["process_start_method"] = mp_obs.start_method()
+        dist["multiprocessing_timeouts_not_reproduced_on_retry"] = sum(r.get("timeouts_retried", 0) for r in recs)
+        dist["wall_s"] = round(time.time() - t0, 1)
+        rep.add("session_histories_modes", dist)
+        rep.add("session_model_modes", {**info, "disagreements": len(bad)})
+        rep.coverage["traces_validated_against_impl"] = rep.coverage.get("traces_validated_against_impl", 0) + len(recs)
+        if mp_obs.start_method() != "fork":
+            found = True
+            rep.finding("modes-start-method", f"worker processes start with {mp_obs.start_method()!r}: harness wrappers are not inherited",
+                        {"kind": "session"}, found_input=False)
+    else:
+        rep.add("session_histories", dist)
+        rep.add("session_model", {**info, "disagreements": len(bad)})
+        rep.add("traces_validated_against_impl", len(recs))
     if recs:
         r0 = recs[0]
-        rep.sample({"part": "A", "request": r0["case"]["spec"]["request"], "ops": r0["ops"],
+        rep.sample({"part": fam, "request": r0["case"]["spec"]["request"], "ops": r0["ops"],
                     "obs": [{k: o[k] for k in ("status", "items", "runner_changed")} for o in r0["obs"]]})
     return found
 
@@ -616,12 +826,24 @@ def do_call(uni: Uni7, pool: Pool, call: Dict[str, Any]) -> Dict[str, Any]:
     feats = [pool.features[i] for i in call["feats"]]
     res: Dict[str, Any] = {"plan": None, "err": None, "run": None}
     _captured.clear()
+    mode = call.get("mode", "SYNC")
     try:
         if call["kind"] == "prepare":
             mloda.prepare(feats, **kw)
-        else:
+        elif mode == "SYNC":
             out = mloda.run_all(feats, **kw)
             res["run"] = ("ok", canon_tables(out))
+        else:
+            kw2 = dict(kw, parallelization_modes=mode_of(mode), **mp_kw(mode))
+            mp_obs.CUR["sink"] = None
+            st, out = mp_obs.watchdog(lambda: mloda.run_all(feats, **kw2), HANG_S)
+            if st == "raised":
+                raise out
+            if st == "hang":
+                mp_obs.kill_stray_children()
+                res["run"] = ("hang", None)
+            else:
+                res["run"] = ("ok", canon_tables(out))
     except Exception as e:  # noqa: BLE001
         sess = _captured[-1] if _captured else None
         if sess is not None and getattr(sess, "engine", None) is not None:
@@ -651,6 +873,56 @@ def unmodelled_changes(before: Any, after: Any) -> List[str]:
     return bad
 
 
+def gen_args_case_modes(rng: random.Random) -> Dict[str, Any]:
+    """gen_args_case with most calls being run_all and every run_all drawing an execution mode: the shared Feature / Options /
+    Link / GlobalFilter / api_data objects are handed to SYNC, THREADING and MULTIPROCESSING runs in turn (outside SYNC the
+    api_data and the function extenders are pickled into a manager process; in MULTIPROCESSING every step -- features, options,
+    filters -- is pickled into a worker process)."""
+    case = gen_args_case(rng)
+    for c in case["calls"]:
+        if rng.random() < 0.8:
+            c["kind"] = "run_all"
+        if c["kind"] == "run_all":
+            c["mode"] = rng.choice(["SYNC", "THREADING", "MULTIPROCESSING", "MULTIPROCESSING"])
+    return case
+
+
+def admit_mode(uni: Uni7, case: Dict[str, Any], call: Dict[str, Any], rec: Dict[str, Any]) -> Dict[str, Any]:
+    """THREADING / MULTIPROCESSING are used only where the outcome of a run is a function of its arguments: the plan (probed with
+    FRESH equal objects: prepare + SYNC run) must have no two unordered steps on one object (conflict_free, resp.
+    conflict_free_x for MULTIPROCESSING; python mirror, re-validated in Coq afterwards), lie outside the planner defect domains,
+    and for MULTIPROCESSING have no transform step from a non-Arrow framework and no api_data (known findings of C01 / C06 /
+    KF_MP_API).  Otherwise the call is made in SYNC (recorded as downgraded)."""
+    want = call["mode"]
+    probe = do_call(uni, Pool(case, uni), dict(call, kind="prepare", mode="SYNC"))
+    sess = probe.get("session")
+    if sess is None:
+        return call                          # planning fails: nothing runs in any mode
+    plan = export_plan(sess, uni)
+    o = run_observed(sess)
+    if o["status"] != "ok":
+        return dict(call, mode="SYNC", downgraded=want, why="SYNC run of the request fails")
+    foot = {int(k): (v[0], list(v[1])) for k, v in o["foot"].items()}
+    cf = mp_obs.conflict_free_py(plan, foot)
+    cfx = mp_obs.conflict_free_py(plan, foot, across_objects_only=True)
+    rec.setdefault("cf_decisions", []).append(({k: v for k, v in plan.items() if k != "_ren"}, foot, cf, cfx))
+    why = None
+    if kf_tfs_partial_requirement(plan) or kf_framework_roundtrip(plan) or kf_tfs_missing(plan):
+        why = "planner defect domain"
+    elif not cf:
+        why = "unordered steps on one object"
+    elif want == "MULTIPROCESSING":
+        if not cfx:
+            why = "unordered steps across objects"
+        elif any(st["kind"] == "TFS" and st["from_cfw"] != "PyArrowTable" for st in plan["steps"]):
+            why = "transform from a non-Arrow framework"
+        elif call["api"]:
+            why = "api_data in MULTIPROCESSING never returns"
+    if why:
+        return dict(call, mode="SYNC", downgraded=want, why=why)
+    return call
+
+
 def run_args_case(case: Dict[str, Any]) -> Dict[str, Any]:
     install_capture()
     uni = Uni7(case["spec"], GateListener())
@@ -665,6 +937,8 @@ def run_args_case(case: Dict[str, Any]) -> Dict[str, Any]:
         before = {k: dump(v, ren) for k, v in pool.objects().items()}
         before_feat = {"features": dump(pool.features, ren), "options": dump(pool.options, ren)}
         entry = model_world(uni, pool, ren)
+        if call.get("mode", "SYNC") != "SYNC" and call["kind"] == "run_all":
+            call = admit_mode(uni, case, call, rec)
         got = do_call(uni, pool, call)
         after = {k: dump(v, ren) for k, v in pool.objects().items()}
         world = model_world(uni, pool, ren)
@@ -776,16 +1050,22 @@ def cq_args_case(rec: Dict[str, Any]) -> str:
     return f"({cq_universe(case)}, {cq_world(rec['w0'])}, {cq_list(cq_cobs(case, c) for c in rec['calls'])})"
 
 
-def part_b(rep: vlib.Reporter, tier: str, rng: random.Random) -> bool:
-    n = 1000 if tier == "thorough" else 70
+def part_b(rep: vlib.Reporter, tier: str, rng: random.Random, modes: bool = False) -> bool:
+    """modes = True: family B-modes -- the run_all calls of a sequence draw their execution mode (gen_args_case_modes)."""
+    big = tier == "thorough"
+    n = (300 if big else 20) if modes else (1000 if big else 70)
+    t0 = time.time()
     recs = []
     dist: Dict[str, Any] = {"sequences": 0, "calls": 0, "copy_false_calls": 0, "outcomes": {}, "shared_differs_from_fresh": 0, "shared_differs_from_fresh_after_copy_only": 0,
                             "api_universes": 0, "with_filter": 0, "with_links": 0,
                             "objects_mutated_calls": 0}
     found = False
-    wit = witness_cases()
+    wit = [] if modes else witness_cases()
+    per_mode: Dict[str, Dict[str, Any]] = {m: {"run_all_calls": 0, "requested": 0, "made_in_sync_instead": {}, "run_outcomes": {},
+                                               "with_filter": 0, "with_links": 0, "with_api_data": 0, "copy_false": 0,
+                                               "shared_differs_from_fresh": 0, "objects_mutated_calls": 0} for m in MODES3}
     for k in range(n + len(wit)):
-        case = wit[k] if k < len(wit) else gen_args_case(rng)
+        case = wit[k] if k < len(wit) else (gen_args_case_modes(rng) if modes else gen_args_case(rng))
         if len(case["calls"]) < 2:
             continue
         rec = run_args_case(case)
@@ -795,6 +1075,28 @@ def part_b(rep: vlib.Reporter, tier: str, rng: random.Random) -> bool:
         for c in rec["calls"]:
             dist["calls"] += 1
             rep.count(2)
+            if modes and c["call"]["kind"] == "run_all":
+                cm = c["call"].get("mode", "SYNC")
+                if c["call"].get("downgraded"):
+                    d_ = per_mode[c["call"]["downgraded"]]
+                    d_["requested"] += 1
+                    d_["made_in_sync_instead"][c["call"]["why"]] = d_["made_in_sync_instead"].get(c["call"]["why"], 0) + 1
+                else:
+                    per_mode[cm]["requested"] += 1
+                pm = per_mode[cm]
+                pm["run_all_calls"] += 1
+                ro = c["err"] or (c["run"][0] if c["run"] else "none")
+                pm["run_outcomes"][ro.split(":")[0]] = pm["run_outcomes"].get(ro.split(":")[0], 0) + 1
+                pm["with_filter"] += int(c["call"]["filter"])
+                pm["with_links"] += int(c["call"]["links"])
+                pm["with_api_data"] += int(bool(c["call"]["api"]))
+                pm["copy_false"] += int(not c["call"]["copy"])
+                pm["shared_differs_from_fresh"] += int(not (c["same"] and c["same_run"]))
+                pm["objects_mutated_calls"] += int(bool(c["mutated"]))
+                if c["run"] and c["run"][0] == "hang":
+                    found = True
+                    rep.finding("args-hang:" + json.dumps(case, sort_keys=True)[:160], f"run_all in {cm} did not return within {HANG_S} s: {c['call']}",
+                                {"kind": "args", "case": case})
             dist["copy_false_calls"] += int(not c["call"]["copy"])
             k = c["err"] or ("planned+" + (c["run"][0] if c["run"] else "prepare-only"))
             k = k.split(":")[0]
@@ -807,7 +1109,10 @@ def part_b(rep: vlib.Reporter, tier: str, rng: random.Random) -> bool:
             for m in c["mutated"]:
                 dist.setdefault("mutated_objects", {})
                 dist["mutated_objects"][m] = dist["mutated_objects"].get(m, 0) + 1
-        if (any(c["call"]["filter"] for c in rec["calls"][:-1]) and rec["calls"][-1]["call"]["filter"]) or \
+        if modes:
+            if len({c["call"].get("mode", "SYNC") for c in rec["calls"] if c["call"]["kind"] == "run_all"}) >= 2:
+                rep.nontrivial(("B-modes", case))
+        elif (any(c["call"]["filter"] for c in rec["calls"][:-1]) and rec["calls"][-1]["call"]["filter"]) or \
                 any(f["link"] is not None for f in case["features"]) or any(not c["call"]["copy"] for c in rec["calls"]):
             rep.nontrivial(("B", case))
         for p in rec["problems"]:
@@ -819,7 +1124,8 @@ def part_b(rep: vlib.Reporter, tier: str, rng: random.Random) -> bool:
     dist["sequences_with_nondeterministic_request"] = sum(1 for r in recs if r.get("nondet"))
     recs = [r for r in recs if not r.get("nondet")]
     terms = [cq_args_case(r) for r in recs]
-    bad, info = vlib.run_cases("C07", "args", REQ_B, "chk_args", terms, case_type="universe * world * list cobs", shard=60)
+    bad, info = vlib.run_cases("C07", "args_modes" if modes else "args", REQ_B, "chk_args", terms,
+                               case_type="universe * world * list cobs", shard=60) if terms else ([], {})
     for i in bad[:6]:
         r = recs[i]
         found = True
@@ -827,11 +1133,31 @@ def part_b(rep: vlib.Reporter, tier: str, rng: random.Random) -> bool:
                     "observed effect of prepare/run_all on the caller's objects (or its planning outcome) is not the model's "
                     "(Model/Args.plan_call): " + json.dumps([{"err": c["err"], "plan": c["plan"], "world": c["world"]} for c in r["calls"]], default=str)[:600],
                     {"kind": "args", "case": r["case"]})
-    rep.add("argument_sequences", dist)
-    rep.add("args_model", {**info, "disagreements": len(bad)})
+    if modes:
+        # the online decisions of the python mirror of conflict_free / conflict_free_x, re-validated by the Coq definitions
+        from harness.c01 import cq_foot, EXTRA as C01_EXTRA
+        decs = [d for r in recs for d in r.get("cf_decisions", [])]
+        dterms = [f"(({cq_plan(pl)}, {cq_foot(ft)}), ({cq_bool(cf)}, {cq_bool(cfx)}))" for pl, ft, cf, cfx in decs]
+        dbad = vlib.run_cases("C07", "cf_mirror", ["MV.Model.Orch", "MV.Model.OrchCheck"], "chk_mirror", dterms, shard=80,
+                              case_type="(plan * foot) * (bool * bool)",
+                              extra_defs=C01_EXTRA + "\nDefinition chk_mirror (c : (plan * foot) * (bool * bool)) := "
+                                         "Bool.eqb (conflict_free (fst (fst c)) (snd (fst c))) (fst (snd c)) && "
+                                         "Bool.eqb (conflict_free_x (fst (fst c)) (snd (fst c))) (snd (snd c)).\n")[0] if dterms else []
+        for i in dbad[:3]:
+            found = True
+            rep.finding(f"cf-mirror:{dterms[i][:160]}", "harness/mp_obs.conflict_free_py disagrees with Model/OrchCheck.conflict_free(_x): "
+                        + dterms[i][:400], {"kind": "cf-mirror", "term": dterms[i]}, found_input=False)
+        dist["per_mode"] = per_mode
+        dist["mode_admission_decisions_revalidated_in_coq"] = {"decisions": len(dterms), "disagreements": len(dbad)}
+        dist["wall_s"] = round(time.time() - t0, 1)
+        rep.add("argument_sequences_modes", dist)
+        rep.add("args_model_modes", {**info, "disagreements": len(bad)})
+    else:
+        rep.add("argument_sequences", dist)
+        rep.add("args_model", {**info, "disagreements": len(bad)})
     if recs:
         r0 = recs[len(wit)] if len(recs) > len(wit) else recs[0]
-        rep.sample({"part": "B", "features": r0["case"]["features"], "filters": r0["case"]["filters"], "links_set": r0["case"]["links_set"],
+        rep.sample({"part": "B-modes" if modes else "B", "features": r0["case"]["features"], "filters": r0["case"]["filters"], "links_set": r0["case"]["links_set"],
                     "calls": r0["case"]["calls"], "outcomes": [(c["err"], c["run"] and c["run"][0], c["same"], c["same_run"]) for c in r0["calls"]]})
     return found
 
@@ -1075,14 +1401,20 @@ def run(rep: vlib.Reporter, tier: str, seed: int) -> None:
         "before/after every call, re-used vs fresh equal objects)",
     ]
     found = part_a(rep, tier, random.Random(seed * 7919 + 7))
+    found = part_a(rep, tier, random.Random(seed * 7937 + 17), modes=True) or found
     found = part_b(rep, tier, random.Random(seed * 7927 + 11)) or found
+    found = part_b(rep, tier, random.Random(seed * 7949 + 19), modes=True) or found
     found = part_c(rep, tier, random.Random(seed * 7933 + 13)) or found
     rep.add("rule", "A: PRNG histories on one session; non-trivial = >= 3 operation kinds incl. a failing and a successful one. "
                     "B: PRNG sequences of 2-5 prepare/run_all calls over a shared pool of Feature/Options/Link/GlobalFilter/api_data "
                     "objects; non-trivial = the GlobalFilter is passed to >= 2 calls incl. the last, or a feature carries a Link, or a "
                     "copy_features=False call. C: requests whose features carry Feature objects as in_features (1-2 levels; frozenset, "
                     "single, list) next to an option value that cannot be deep-copied (sqlite connection, lock, generator); second call "
-                    "on another framework / the same nested objects below another dependent feature; non-trivial = uncopyable value present.")
+                    "on another framework / the same nested objects below another dependent feature; non-trivial = uncopyable value present. "
+                    "A-modes: histories (<= 6 operations) whose operations draw their mode from {SYNC, THREADING, MULTIPROCESSING} as far as "
+                    "the plan admits (conflict_free / conflict_free_x, no api_data-backed root, no transform from a non-Arrow framework); "
+                    "non-trivial = >= 2 modes and >= 2 operation kinds in one history. B-modes: the call sequences of B with every run_all "
+                    "drawing its mode; non-trivial = run_all calls in >= 2 modes within one sequence.")
     if not pr.ok and not found:
         rep.finding("proof-broken", "Props/C07.v no longer checks",
                     {"failed_files": pr.failed_files, "forbidden": pr.forbidden, "log_tail": pr.log[-3000:]}, found_input=False)
